@@ -254,6 +254,21 @@ def gen_link(rng, blocks, opts):
         pool = sorted({a["name"] for b in blocks.values() for a in b["atoms"]} - {k[1] for k in latoms})
         if pool and anchor:
             nm = rng.choice(pool)
+            # bias towards a veto that can fire: an atom bonded to the anchor inside its block
+            partners = set()
+            for b in blocks.values():
+                nms = [a["name"] for a in b["atoms"]]
+                for it in b["inter"]:
+                    if it["sec"] in ("bonds", "constraints") and max(it["atoms"]) < len(nms):
+                        x, y = nms[it["atoms"][0]], nms[it["atoms"][1]]
+                        if x == anchor[1]:
+                            partners.add(y)
+                        if y == anchor[1]:
+                            partners.add(x)
+            partners &= set(pool)
+            if partners and rng.random() < 0.6:
+                nm = rng.choice(sorted(partners))
+                tgt_order = 0
             link["nonedges"].append((anchor, {"order": o + tgt_order, "name": nm, "attrs": {}}))
     return link
 
@@ -282,6 +297,8 @@ def render_blocks_ff(blocks):
                 cur = it["sec"]
             toks = [b["atoms"][x]["name"] for x in it["atoms"]]
             line = " ".join(toks) + (" " + " ".join(it["params"]) if it["params"] else "")
+            if it["sec"] == "exclusions":
+                line += " --"
             if it["meta"]:
                 line += " " + json.dumps(it["meta"])
             out.append(line)
